@@ -157,6 +157,43 @@ class Campaign:
     # ------------------------------------------------------ findings/replays
     def run_witnesses(self, replay_fn):
         """
+        Run the replay tier in a forked child and merge what it found: the
+        parent's heap stays small, so that the shard processes forked next do not
+        pay (copy-on-write) for whatever the witnesses left behind.
+        """
+        env.workdir()   # create the scratch root in the parent so that it is removed when the parent exits
+        r, w_ = os.pipe()
+        sys.stdout.flush()
+        pid = os.fork()
+        if pid == 0:
+            status = 0
+            try:
+                os.close(r)
+                sub = Campaign(self.pid, rule="", tier=self.tier, seed=self.seed)
+                sub._run_witnesses(replay_fn)
+                payload = json.dumps({"export": sub.export(), "witness_status": sub.witness_status}, default=repr).encode()
+                with os.fdopen(w_, "wb") as fp:
+                    fp.write(payload)
+            except BaseException:
+                traceback.print_exc()
+                status = 1
+            finally:
+                sys.stdout.flush()
+                os._exit(status)
+        os.close(w_)
+        with os.fdopen(r, "rb") as fp:
+            raw = fp.read()
+        os.waitpid(pid, 0)
+        try:
+            d = json.loads(raw.decode())
+        except ValueError:
+            self.harness_error("the witness replay process died without a result")
+            return
+        self.merge(d["export"])
+        self.witness_status.update(d["witness_status"])
+
+    def _run_witnesses(self, replay_fn):
+        """
         replay_fn(case) -> list of (bucket, detail) failures for that case.
         Executes the witness of every listed finding and every file in
         replays/<ID>/ (the seconds-long replay tier).
